@@ -5,7 +5,7 @@
 (* on the same input and must agree on acceptance and on the whole summary. *)
 EXTENDS ConditionsObs, TraceUtil
 
-InOf(e) == [tree |-> e.tree, flags |-> RangeOf(e.flags), max |-> e.max, clvm |-> e.clvm, vis |-> e.vis,
+InOf(e) == [tree |-> FromJ(e.tree), flags |-> RangeOf(e.flags), max |-> e.max, clvm |-> e.clvm, vis |-> e.vis,
             consts |-> e.consts, validKeys |-> RangeOf(e.vk)]
 
 \* the harness passes the identity signature: it verifies iff nothing has to be signed
